@@ -37,6 +37,7 @@ pub fn all() -> Vec<&'static Check> {
         &rrdp::C31,
         &rrdp::C29,
         &rrdp2::C25,
+        &rrdp2::C24,
         &worlds2::C39,
         &hist2::C40,
         &worlds2::C41,
@@ -72,6 +73,9 @@ pub fn find(id: &str) -> Option<&'static Check> {
 pub fn special(args: &[String]) -> Option<i32> {
     if args.get(1).map(|s| s.as_str()) == Some("routinator") {
         return Some(crate::rvbin::main(&args[1..]))
+    }
+    if args.get(1).map(|s| s.as_str()) == Some("rrdp-child") {
+        return Some(crate::props::rrdp2::child_main(&args[2..]))
     }
     None
 }
